@@ -207,6 +207,17 @@ def judge_seed_routes(ctx, case):
                 bad.append((name + ".raised", exp.fields(), e))
                 continue
             b = bridge.compare_node(w.master, exp, tn, True)
+            # ... and the key material as the node USES it (private scalar, public key, fingerprint, printed keys)
+            b += bridge.compare_strings(w.master, exp, tn, True)
+            try:
+                if int.from_bytes(bytes(w.master.private_key), "big") != exp.k:
+                    b.append(("private_key", exp.k, bytes(w.master.private_key)))
+                if w.master.public_key.sec() != exp.sec():
+                    b.append(("public_key", exp.sec(), w.master.public_key.sec()))
+                if w.master.fingerprint() != exp.fingerprint():
+                    b.append(("fingerprint", exp.fingerprint(), w.master.fingerprint()))
+            except Exception as e:  # noqa
+                b.append(("key_use.raised", None, e))
             if b:
                 bad.append(("%s.%s" % (name, b[0][0]), b[0][1], b[0][2]))
     return ctx.judge("seed_routes", not bad, case, exp.fields(), bad, cls="seedroutes|%s|len%d" % (case.get("tag", ""), len(seed)),
@@ -315,6 +326,19 @@ def run(ctx):
             sd = {"lead0": b"\x00" * z + gen.rbytes(rnd, ln - z), "trail0": gen.rbytes(rnd, ln - z) + b"\x00" * z,
                   "random": gen.rbytes(rnd, ln), "zero": b"\x00" * ln, "ff": b"\xff" * ln}[kind]
             judge_seed_routes(ctx, {"seed": sd, "tag": kind})
+        # masters whose key / chain code has a telling byte at an end (01 = WIF compression flag, 00 = pad byte, 02/03 =
+        # SEC prefix, blank/newline = what strip() removes): found by search, then through every constructor route
+        wants = [("k_last", 0x01), ("k_last", 0x00), ("k_first", 0x00), ("k_first", 0x02), ("k_first", 0x03), ("k_last", 0x20),
+                 ("k_last", 0x0A), ("c_first", 0x00), ("c_last", 0x00), ("c_last", 0x01), ("c_last", 0x20), ("k_first", 0x04)]
+        for wi, want in enumerate(wants * (1 if not ctx.thorough else 6)):
+            n += 1
+            if not ctx.mine(n):
+                continue
+            sd = gen.special_master_seed(rnd, want)
+            if sd is None:
+                continue
+            judge_seed_routes(ctx, {"seed": sd, "tag": "%s=%02x" % want})
+            judge_master(ctx, {"seed": sd})
         # seeds whose BYTES happen to be text: ASCII hex digits (a "brain" seed = hexdigest().encode()), decimal digits,
         # Base58/Base64 characters, blanks, a UTF-8 sentence, a printed xprv - every byte string of legal length is a seed
         # and must be used as it is, never re-interpreted
